@@ -19,6 +19,7 @@ type replay struct {
 	Stream string `json:"stream"`
 	Idx    int    `json:"idx"`
 	Wire   string `json:"wire,omitempty"`
+	Note   string `json:"note,omitempty"`
 }
 
 func shapeOf(e *ref4.P4, order string) (string, bool) {
@@ -98,9 +99,9 @@ func caseGen(r *mon.Rec, idx int) {
 		p, e = gen4.Packet(rng, 2)
 		gen4.LargeTotal(rng, p, e)
 	}
-	r.Current(replay{"gen", idx, ""})
+	r.Current(replay{Stream: "gen", Idx: idx, Wire: ""})
 	r.Eval(1)
-	rp := replay{"gen", idx, ""}
+	rp := replay{Stream: "gen", Idx: idx, Wire: ""}
 	var first []byte
 	pan, val, st := mon.Guard(func() {
 		for k := 0; k < 4; k++ {
@@ -174,6 +175,43 @@ func caseGen(r *mon.Rec, idx int) {
 		}
 		if !bytes.Equal(full, first) {
 			r.Violate("C07:options-tobytes-differs", "Options.ToBytes() is not the options area of the packet encoding", rp)
+			return
+		}
+		// the encoding is a function of what the packet holds NOW: after it has been encoded, its owner changes it
+		// (through the exported map, the Options methods, a struct copy that shares the map; the number of options
+		// stays or not) and encodes it again -- the bytes are those of the new contents
+		if len(p.Options) > 0 && idx < largeBase {
+			var codes []int
+			for c := range p.Options {
+				codes = append(codes, int(c))
+			}
+			sort.Ints(codes)
+			for k := 1 + rng.IntN(2); k > 0; k-- {
+				c := uint8(codes[rng.IntN(len(codes))])
+				nv := gen4.Bytes(rng, []int{0, 1, 4, 9, 255, 256}[rng.IntN(6)])
+				switch rng.IntN(4) {
+				case 0:
+					p.Options[c] = nv
+				case 1:
+					p.Options.Update(dhcpv4.OptGeneric(dhcpv4.GenericOptionCode(c), nv))
+				case 2:
+					cp := *p // shares the map
+					cp.Options.Update(dhcpv4.OptGeneric(dhcpv4.GenericOptionCode(c), nv))
+				default:
+					p.UpdateOption(dhcpv4.OptGeneric(dhcpv4.GenericOptionCode(c), nv))
+				}
+				e.Opts[c] = append([]byte{}, nv...)
+				if rng.IntN(3) == 0 {
+					p.HopCount++
+					e.Hops++
+				}
+				rp2 := rp
+				rp2.Note = "re-encoded after its owner changed it"
+				if !validate(r, rp2, p.ToBytes(), e) {
+					return
+				}
+			}
+			r.Count("reencoded_after_edit", 1)
 		}
 	})
 	if pan {
@@ -250,13 +288,13 @@ func casePerm(r *mon.Rec, idx int) {
 		k = 7 + rng.IntN(6)
 		sampled = true
 	}
-	r.Current(replay{"perm", idx, ""})
+	r.Current(replay{Stream: "perm", Idx: idx, Wire: ""})
 	us := drawSet(rng, k)
 	base, e := gen4.Packet(rng, 0)
 	for _, u := range us {
 		e.Opts[u.code] = u.val
 	}
-	rp := replay{"perm", idx, ""}
+	rp := replay{Stream: "perm", Idx: idx, Wire: ""}
 	var ref []byte
 	n := 0
 	build := func(order []int, style int) []byte {
